@@ -11,13 +11,27 @@
    entry has an 'output_dir' key).  The content of a task's file is
 
       absent               no file
-      empty                the file was opened for writing (truncated), nothing flushed
-      partial(status,ver)  a strict, non-empty prefix of the serialized entry
+      empty                a file of length zero
+      partial              a strict, non-empty prefix of a serialized entry
       full(status,ver)     the complete serialized entry
       garbage              bytes that are no serialization of anything
       dir, unreadable      a directory / an object that cannot be opened in place of the file
 
    The binding expands `partial` to EVERY byte length of the concrete file.
+
+   HOW a file is written is not part of the property.  The specification is a
+   RELATION that only fixes what the statement of C14 fixes:
+     * the entries of one write_env call are handled in ANY order (`queue` is
+       a set);
+     * the write of one file either works on the destination itself (mode
+       "inplace": the file is emptied, then grows through prefixes of the new
+       content) or leaves it alone until the new content is complete (mode
+       "keep": temporary file + rename);  so, after a crash during the write
+       of a file, the file holds a prefix of the new content, or the complete
+       previous content, or the complete new content -- never anything else;
+     * a destination that cannot be opened (directory, unopenable object) is
+       either skipped or -- mode "keep" -- replaced.
+   The binding resolves these choices by what it observes.
 
    Crash may strike between any two steps of a write; it (like a normal exit)
    loses the in-memory environment.  Faults damage files between processes.
@@ -30,12 +44,13 @@ CONSTANTS Tasks,       \* set of task ids (integers)
           MaxVer,      \* entries created over the whole history
           MaxFaults,   \* file faults over the whole history
           MaxCrashes,  \* crashes / exits over the whole history
-          FaultKinds,  \* subset of {"absent", "empty", "garbage", "dir", "unreadable"}
+          FaultKinds,  \* subset of {"absent", "empty", "partial", "garbage", "dir", "unreadable"}
+          Modes,       \* non-empty subset of {"inplace", "keep"}: how a file may be written
           None         \* model value
 
 VARIABLES mem,       \* task -> entry of the running process
           file,      \* task -> content of its environment file
-          queue,     \* tasks the current write_env call still has to handle
+          queue,     \* SET of tasks the current write_env call still has to handle (any order)
           w,         \* task whose file is open for writing, or None
           nver, nfault, ncrash,
           lastRead,  \* observation of the last ReadAll (valid only in the state right after it)
@@ -64,13 +79,12 @@ ReadOneOf(f, t) == IF Readable(f)
                    THEN [valid |-> TRUE, t |-> t, raised |-> FALSE, present |-> TRUE, status |-> f.status, ver |-> f.ver]
                    ELSE [valid |-> TRUE, t |-> t, raised |-> FALSE, present |-> FALSE, status |-> "WAITING", ver |-> 0]
 
-Perms(S) == {f \in [1 .. Cardinality(S) -> S] : \A i, j \in 1 .. Cardinality(S) : f[i] = f[j] => i = j}
-Idle == w = None /\ queue = <<>>
+Idle == w = None /\ queue = {}
 Fresh == \A t \in Tasks : ~mem[t].present
 
 Init == /\ mem = [t \in Tasks |-> NoEntry]
         /\ file = [t \in Tasks |-> Blank("absent")]
-        /\ queue = <<>> /\ w = None
+        /\ queue = {} /\ w = None
         /\ nver = 1 /\ nfault = 0 /\ ncrash = 0
         /\ lastRead = NoRead /\ lastOne = NoOne
         /\ lastFull = [t \in Tasks |-> NoFull]
@@ -87,39 +101,45 @@ Run(t, s, d) ==
    /\ act' = [op |-> "run", t |-> t, status |-> s, ver |-> nver, dir |-> d]
    /\ Forget /\ UNCHANGED <<file, queue, w, nfault, ncrash, lastFull, intact>>
 
-(* write_env: every entry of the environment in turn *)
-StartWrite(order) ==
-   /\ Idle /\ \E t \in Tasks : mem[t].present
-   /\ queue' = order
-   /\ act' = [op |-> "start", order |-> order]
+(* write_env: every entry of the environment, in any order *)
+StartWrite(S) ==
+   /\ Idle /\ S # {} /\ \A t \in S : mem[t].present
+   /\ queue' = S
+   /\ act' = [op |-> "start", tasks |-> S]
    /\ Forget /\ UNCHANGED <<mem, file, w, nver, nfault, ncrash, lastFull, intact>>
 
 (* an entry without output directory is never written *)
-Skip ==
-   /\ w = None /\ queue # <<>> /\ ~mem[Head(queue)].dir
-   /\ queue' = Tail(queue)
-   /\ act' = [op |-> "skip", t |-> Head(queue)]
+Skip(t) ==
+   /\ w = None /\ t \in queue /\ ~mem[t].dir
+   /\ queue' = queue \ {t}
+   /\ act' = [op |-> "skip", t |-> t]
    /\ Forget /\ UNCHANGED <<mem, file, w, nver, nfault, ncrash, lastFull, intact>>
 
-(* open(path, 'wb'): truncates -- or fails (and is skipped) when the path cannot be opened *)
-BeginWrite ==
-   /\ w = None /\ queue # <<>> /\ mem[Head(queue)].dir
-   /\ LET t == Head(queue) IN
-      IF file[t].kind \in Blocked
-      THEN /\ queue' = Tail(queue)
-           /\ act' = [op |-> "blocked", t |-> t]
-           /\ UNCHANGED <<file, w, intact>>
-      ELSE /\ file' = [file EXCEPT ![t] = Blank("empty")]
-           /\ intact' = [intact EXCEPT ![t] = FALSE]
-           /\ w' = t
-           /\ act' = [op |-> "begin", t |-> t]
-           /\ UNCHANGED queue
+(* the write of t's file starts.  m = "blocked": the destination cannot be opened, the entry is given up
+   (the process goes on);  "inplace": the destination is opened for writing, which empties it;  "keep": the
+   new content is prepared elsewhere, the destination keeps its content until EndWrite *)
+BeginWrite(t, m) ==
+   /\ w = None /\ t \in queue /\ mem[t].dir
+   /\ \/ /\ m = "blocked" /\ file[t].kind \in Blocked
+         /\ queue' = queue \ {t}
+         /\ act' = [op |-> "blocked", t |-> t]
+         /\ UNCHANGED <<file, w, intact>>
+      \/ /\ m = "inplace" /\ m \in Modes /\ file[t].kind \notin Blocked
+         /\ file' = [file EXCEPT ![t] = Blank("empty")]
+         /\ intact' = [intact EXCEPT ![t] = FALSE]
+         /\ w' = t
+         /\ act' = [op |-> "begin", t |-> t, mode |-> m]
+         /\ UNCHANGED queue
+      \/ /\ m = "keep" /\ m \in Modes
+         /\ w' = t
+         /\ act' = [op |-> "begin", t |-> t, mode |-> m]
+         /\ UNCHANGED <<file, intact, queue>>
    /\ Forget /\ UNCHANGED <<mem, nver, nfault, ncrash, lastFull>>
 
-(* some, but not all bytes reached the file *)
+(* some, but not all bytes reached the file (only a file that was emptied grows) *)
 WriteChunk ==
-   /\ w # None /\ file[w].kind = "empty"
-   /\ file' = [file EXCEPT ![w] = FileOf("partial", mem[w].status, mem[w].ver)]
+   /\ w # None /\ file[w].kind = "empty" /\ act.op = "begin" /\ act.mode = "inplace"
+   /\ file' = [file EXCEPT ![w] = Blank("partial")]
    /\ act' = [op |-> "chunk", t |-> w]
    /\ Forget /\ UNCHANGED <<mem, queue, w, nver, nfault, ncrash, lastFull, intact>>
 
@@ -128,7 +148,7 @@ EndWrite ==
    /\ file' = [file EXCEPT ![w] = FileOf("full", mem[w].status, mem[w].ver)]
    /\ lastFull' = [lastFull EXCEPT ![w] = [present |-> TRUE, status |-> mem[w].status, ver |-> mem[w].ver]]
    /\ intact' = [intact EXCEPT ![w] = TRUE]
-   /\ queue' = Tail(queue) /\ w' = None
+   /\ queue' = queue \ {w} /\ w' = None
    /\ act' = [op |-> "end", t |-> w]
    /\ Forget /\ UNCHANGED <<mem, nver, nfault, ncrash>>
 
@@ -137,7 +157,7 @@ Crash ==
    /\ ncrash < MaxCrashes
    /\ \E t \in Tasks : mem[t].present
    /\ mem' = [t \in Tasks |-> NoEntry]
-   /\ queue' = <<>> /\ w' = None
+   /\ queue' = {} /\ w' = None
    /\ ncrash' = ncrash + 1
    /\ act' = [op |-> IF Idle THEN "exit" ELSE "crash"]
    /\ Forget /\ UNCHANGED <<file, nver, nfault, lastFull, intact>>
@@ -171,11 +191,13 @@ ReadOne(t) ==
    /\ act' = [op |-> "readone", t |-> t]
    /\ UNCHANGED <<mem, file, queue, w, nver, nfault, ncrash, lastFull, intact>>
 
-StartWriteAny == \E order \in Perms({t \in Tasks : mem[t].present}) : StartWrite(order)
+StartWriteAny == \E S \in {{t \in Tasks : mem[t].present}} : StartWrite(S)
+SkipAny == \E t \in Tasks : Skip(t)
+BeginWriteAny == \E t \in Tasks, m \in Modes \cup {"blocked"} : BeginWrite(t, m)
 
 Next == \/ \E t \in Tasks, s \in Statuses, d \in BOOLEAN : Run(t, s, d)
         \/ StartWriteAny
-        \/ Skip \/ BeginWrite \/ WriteChunk \/ EndWrite \/ Crash
+        \/ SkipAny \/ BeginWriteAny \/ WriteChunk \/ EndWrite \/ Crash
         \/ \E t \in Tasks, k \in FaultKinds : Fault(t, k)
         \/ ReadAll
         \/ \E t \in Tasks : ReadOne(t)
@@ -230,7 +252,7 @@ HistoryOK == \A t \in Tasks :
 
 TypeOK == /\ w \in Tasks \cup {None}
           /\ \A t \in Tasks : file[t].kind \in {"absent", "empty", "partial", "full", "garbage", "dir", "unreadable"}
-          /\ \A i \in DOMAIN queue : queue[i] \in Tasks
+          /\ queue \subseteq Tasks
 
 -----------------------------------------------------------------------------
 (* witnesses (negated reachability): TLC must find each of them violated *)
@@ -242,5 +264,7 @@ W_LostOlder     == ~(lastRead.valid /\ \E t \in Tasks : lastFull[t].present /\ l
 W_NotDoneFull   == ~(lastRead.valid /\ \E t \in Tasks : file[t].kind = "full" /\ file[t].status # "DONE")
 W_Rewritten     == ~(lastRead.valid /\ \E e \in lastRead.env : e.ver > 1 /\ ncrash > 1)
 W_BlockedWrite  == ~(act.op = "blocked")
+W_BeginKeep     == ~(w # None /\ act.op = "begin" /\ act.mode = "keep" /\ file[w].kind = "full" /\ file[w].status = "DONE")
+W_KeepOverBlocked == ~(w # None /\ file[w].kind \in Blocked)
 W_Skip          == ~(act.op = "skip")
 =============================================================================
